@@ -116,7 +116,7 @@ func RunC15(c *Ctx, r *Report) {
 	okW := write != nil && nW == 1 && write.Call.Args[0] == resultN(mc[0], 0) && onNilErrEdge(errResult(mc[0]), write.Block())
 	r.Check(okW, rule, "exactly the marshalled packet is written into the HMAC", c.Pos(fn.Pos()), "one Write of Marshal()'s result on its nil-error edge", "the HMAC input is not exactly the marshalled packet")
 	okS := false
-	if sum != nil && isNilConst(sum.Call.Args[0]) && write != nil && dominatesInstr(write, sum) {
+	if sum != nil && c.allSumNil(sum, map[ssa.Value]bool{}) && write != nil && dominatesInstr(write, sum) {
 		for _, b := range fn.Blocks {
 			if ret, ok := b.Instrs[len(b.Instrs)-1].(*ssa.Return); ok && isNilConst(ret.Results[1]) {
 				root, lo, hi, open := f.relSpan(ret.Results[0])
